@@ -24,7 +24,8 @@ type Value any
 type Obj struct {
 	Name   string
 	Fields map[string]Value
-	Opaque bool // symbolic object: fields may not be read
+	Opaque bool   // symbolic object: fields may not be read
+	T      string // named type of the pointee, "" if unknown
 }
 
 // Rec is a struct value (copied on assignment).
@@ -129,6 +130,9 @@ type Interp struct {
 	Leaf func(e ast.Expr) (Value, bool)
 	// Globals gives values to package-level variables by core.ObjName.
 	Globals map[string]Value
+	// ReverseMaps makes range over a map run in descending key order (the
+	// default is ascending), so a rule can evaluate two iteration orders.
+	ReverseMaps bool
 }
 
 // ElemPtr is a pointer to a slice element.
@@ -541,6 +545,11 @@ func (f *frame) stmt(s ast.Stmt) (ctl, error) {
 					ks = append(ks, k)
 				}
 				sortStrings(ks)
+				if f.in.ReverseMaps {
+					for i, j := 0, len(ks)-1; i < j; i, j = i+1, j-1 {
+						ks[i], ks[j] = ks[j], ks[i]
+					}
+				}
 				for _, k := range ks {
 					keys = append(keys, sl.Keys[k])
 					elems = append(elems, sl.M[k])
@@ -1162,7 +1171,7 @@ func (f *frame) exprMulti(e ast.Expr) ([]Value, error) {
 			return nil, err
 		}
 		if o, ok := v.(*Obj); ok && o != nil && !o.Opaque {
-			return []Value{&Rec{Fields: o.Fields}}, nil
+			return []Value{&Rec{Fields: o.Fields, T: o.T}}, nil
 		}
 		return nil, unsup(e.Pos(), "dereference")
 	case *ast.UnaryExpr:
@@ -1194,14 +1203,14 @@ func (f *frame) exprMulti(e ast.Expr) ([]Value, error) {
 					return nil, err
 				}
 				if rec, ok := r.(*Rec); ok {
-					return []Value{&Obj{Name: "new", Fields: rec.Fields}}, nil
+					return []Value{&Obj{Name: "new", Fields: rec.Fields, T: rec.T}}, nil
 				}
 			}
 			if id, ok := ast.Unparen(e.X).(*ast.Ident); ok {
 				if vr := f.env.lookup(f.info.Uses[id]); vr != nil {
 					if rec, ok := vr.v.(*Rec); ok && rec != nil {
 						// pointer to a local struct variable: share its fields
-						return []Value{&Obj{Name: "&" + id.Name, Fields: rec.Fields}}, nil
+						return []Value{&Obj{Name: "&" + id.Name, Fields: rec.Fields, T: rec.T}}, nil
 					}
 				}
 			}
@@ -1354,6 +1363,23 @@ func (f *frame) exprMulti(e ast.Expr) ([]Value, error) {
 // dynIs reports whether the dynamic type of v is t (ok) and whether that is decidable (known).
 func dynIs(v Value, t types.Type) (ok, known bool) {
 	name := core.TypeName(t)
+	if _, isPtr := t.(*types.Pointer); isPtr {
+		switch x := v.(type) {
+		case *Obj:
+			if x == nil {
+				return false, true
+			}
+			if x.T == "" {
+				return false, false
+			}
+			return x.T == name, true
+		default:
+			return false, true
+		}
+	}
+	if _, isObj := v.(*Obj); isObj {
+		return false, true // a pointer value never has a non-pointer, non-interface dynamic type
+	}
 	if _, isIface := t.Underlying().(*types.Interface); isIface {
 		return v != nil, true
 	}
@@ -1379,6 +1405,22 @@ func binop(pos token.Pos, op token.Token, l, r Value) (Value, error) {
 		return valuesEqual(l, r), nil
 	case token.NEQ:
 		return !valuesEqual(l, r), nil
+	}
+	if ls, ok := l.(string); ok {
+		if rs, ok := r.(string); ok {
+			switch op {
+			case token.ADD:
+				return ls + rs, nil
+			case token.LSS:
+				return ls < rs, nil
+			case token.LEQ:
+				return ls <= rs, nil
+			case token.GTR:
+				return ls > rs, nil
+			case token.GEQ:
+				return ls >= rs, nil
+			}
+		}
 	}
 	a, ok1 := l.(int64)
 	b, ok2 := r.(int64)
@@ -1433,6 +1475,26 @@ func (f *frame) compositeLit(e *ast.CompositeLit) (Value, error) {
 				elems = append(elems, copyVal(v))
 			}
 			return &Slice{Elems: &elems}, nil
+		}
+		if _, isMap := t.Underlying().(*types.Map); isMap {
+			m := NewMap()
+			for _, el := range e.Elts {
+				kv, ok := el.(*ast.KeyValueExpr)
+				if !ok {
+					return nil, unsup(e.Pos(), "map literal element")
+				}
+				kk, err := f.expr(kv.Key)
+				if err != nil {
+					return nil, err
+				}
+				vv, err := f.expr(kv.Value)
+				if err != nil {
+					return nil, err
+				}
+				ks := keyString(kk)
+				m.M[ks], m.Keys[ks] = copyVal(vv), kk
+			}
+			return m, nil
 		}
 		return nil, unsup(e.Pos(), "composite literal of %v", t)
 	}
